@@ -58,6 +58,9 @@ FAMS = [dict(GN=1, GD=2, PD=2), dict(GN=3, GD=4, PD=2), dict(GN=9, GD=10, PD=2),
 ALPHAS = [(0, 1), (1, 10), (1, 4), (1, 2), (1, 2), (3, 4), (1, 1), (1, 1)]
 EPSS = [(0, 1), (1, 10), (1, 4), (1, 2), (1, 1)]
 TEMPS = [0.0, 0.0, 0.0, 0.0, 0.5, 2.0]
+SOFT_TEMPS = [0.02, 0.05, 0.05, 0.2, 0.5, 2.0]      # expected SARSA, softmax configuration (small tau: tight interval)
+SOFT_EPSS = [(0, 1), (1, 4), (1, 2), (1, 2), (1, 1), (1, 1)]
+WU = 2 ** 20                                          # softmax weights are logged in units of 1/2^20 (wh * 2^10 + wl)
 
 
 def make_q0(rng, m):
@@ -88,10 +91,30 @@ def make_case(rng, i):
                temp=rng.choice(TEMPS), q0kind=kind, q0=q0, episodes=rng.randint(1, 5),
                seed=(None if rng.random() < 0.08 else rng.randrange(10 ** 6)), gseed=rng.randrange(10 ** 6),
                intq=rng.random() < 0.5)
+    if cfg["alg"] == "ESARSA" and rng.random() < 0.45:
+        # softmax configuration of expected SARSA: small temperatures x large exploration rates x rows with
+        # distinct values (state-action dependent initial values, step size > 0)
+        cfg["temp"] = rng.choice(SOFT_TEMPS)
+        cfg["EN"], cfg["ED"] = rng.choice(SOFT_EPSS)
+        if rng.random() < 0.7:
+            cfg["q0kind"], cfg["q0"] = "table", [[rng.randint(-8, 8) for _ in range(K)] for _ in range(m["N"])]
+        if cfg["AN"] == 0:
+            cfg["AN"], cfg["AD"] = rng.choice([(1, 4), (1, 2), (1, 1)])
+    # msdm's sampler computes exp(q / tau) directly: keep |q| / tau below the float range (a-priori bound on |q|)
+    while cfg["temp"] > 0 and qbound(m, cfg) / cfg["temp"] > 600:
+        cfg["temp"] = min(t for t in (0.05, 0.2, 0.5, 2.0, 8.0) if t > cfg["temp"])
     rep = dict(REPS[rng.randrange(len(REPS))])
     if rep["rep"] == "matrices" and not rep["explicit_list"] and not gen.ghost_closed(m):
         rep["explicit_list"] = True          # ghost successors outside the inferred list: C06's business
     return {"m": m, "cfg": cfg, "rep": rep}
+
+
+def qbound(m, cfg):
+    """A-priori bound on |Q| for a training of at most MAXSTEPS steps."""
+    g = F(m["GN"], m["GD"])
+    q0 = max(abs(x) for row in cfg["q0"] for x in row) / 4
+    r = max([abs(x) for s in m["R"] for a in s for x in a] + [1])
+    return float(max(q0, r / (1 - g)) if g < 1 else q0 + r * (MAXSTEPS + 1))
 
 
 def magnitude_ok(case):
@@ -155,8 +178,27 @@ def run_real(case, max_steps=MAXSTEPS):
             except ValueError:
                 raise _BadCall(f"initial_q called with ({s!r}, {a!r})") from None
     events = []
-    st = {"new": True, "steps": 0}
+    st = {"new": True, "steps": 0, "snap": {}}
     alg = cfg["alg"]
+    soft = alg == "ESARSA" and cfg["temp"] != 0
+
+    def soft_weights(table, ns):
+        """Softmax weights of the row table[ns] *before* this update (snapshot taken after the previous update, or
+        the lazy default), computed here with math.exp - independent of msdm's SoftmaxDistribution.
+        Returns (hw, wh, wl): weights in units of 1/2^20 split as wh * 2^10 + wl, per abstract action."""
+        row = st["snap"].get(ns)
+        if row is None and hasattr(table, "defaultvalue"):
+            row = table.defaultvalue(ns)      # not yet there after the previous update: read as the lazy default
+        wh, wl = [0] * K, [0] * K
+        if row is None or not all(aidx(a) for a in row):
+            return 0, wh, wl
+        mx = max(row.values())
+        ex = {a: math.exp((v - mx) / cfg["temp"]) for a, v in row.items()}
+        z = sum(ex.values())
+        for a, x in ex.items():
+            v = round(x / z * WU)
+            wh[aidx(a) - 1], wl[aidx(a) - 1] = v >> 10, v & 1023
+        return 1, wh, wl
 
     def entry(table, s, a):
         """(value, observed) of table[s][a] as msdm would read it, without materialising a row of the lazy table."""
@@ -191,6 +233,10 @@ def run_real(case, max_steps=MAXSTEPS):
                 (q, h1), (q2, h2) = entry(lv["q"], s, a), (0, 0)
             events.append({"k": "step", "s": sidx(s), "a": aidx(a), "r": quant(lv["r"]), "ns": sidx(ns),
                            "na": aidx(lv["na"]) if alg == "SARSA" else 0, "q": q, "q2": q2, "h1": h1, "h2": h2})
+            if soft:
+                hw, wh, wl = soft_weights(lv["q"], ns)
+                events[-1].update(hw=hw, wh=wh, wl=wl)
+                st["snap"] = {k: dict(v) for k, v in dict.items(lv["q"])}
             st["steps"] += 1
             if st["steps"] >= max_steps:
                 raise _Stop()
@@ -372,7 +418,10 @@ def judge(ctx, cases, recs):
         nsteps = sum(1 for e in rec["ev"] if e["k"] == "step")
         loose = alg == "ESARSA" and not rec["temp0"]
         if loose:
-            ctx.skip("ExpectedSARSA with softmax_temp > 0: update target needs exp(); only its range is checked")
+            steps = [e for e in rec["ev"] if e["k"] == "step"]
+            ctx.count("softmax_runs")
+            ctx.count("softmax_steps_with_logged_weights", sum(1 for e in steps if e.get("hw")))
+            ctx.count("softmax_steps_interval_only", sum(1 for e in steps if not e.get("hw")))
         if rec["truncated"]:
             ctx.skip("training longer than %d steps: prefix validated, final table/policy not judged" % MAXSTEPS)
         # machinery cross-check: TLC's fold against exact Fractions
@@ -399,7 +448,7 @@ def judge(ctx, cases, recs):
         if v["phase"] == "done" and not v["fails"]:
             ctx.validated += 1
             boot = any(e["k"] == "step" and not rec["abs"][e["ns"] - 1] for e in rec["ev"])
-            if nsteps >= 3 and boot and rec["AN"] > 0 and not loose:
+            if nsteps >= 3 and boot and rec["AN"] > 0:
                 ctx.nontrivial(digest([c["m"], c["cfg"]]))
         ctx.count(f"runs_{alg}")
         ctx.count("events", len(rec["ev"]))
@@ -489,14 +538,18 @@ def run(ctx):
     ctx.rule = ("B: random proper MDPs (1-4 non-absorbing + 1-2 explicitly absorbing states with ghost dynamics, 1-3 "
                 "state-dependent actions, gamma in {1/2,3/4,9/10,1}, PD in {2,4}, 30% with initial mass on an absorbing "
                 "state) x 4 learners x step size {0,.1,.25,.5,.75,1} x rand_choose {0,.1,.25,.5,1} x softmax_temp "
-                "{0,.5,2} x initial_q {int, float, callable table, callable by action} x episodes 1-5 x seed (incl. None) "
+                "{0,.5,2; expected SARSA also .02,.05,.2} x initial_q {int, float, callable table, callable by action} x episodes 1-5 x seed (incl. None) "
                 "x 7 representations; non-trivial = accepted trace with >= 3 updates, step size > 0, at least one "
-                "bootstrap from a non-absorbing next state, update rule fully modelled (not ExpectedSARSA with temp>0)")
+                "bootstrap from a non-absorbing next state")
     ctx.assumptions = [
         "the event listener's locals() and the returned q_values/policy are what the learner computed with",
         "floats are compared in fixed point, unit 1/65536, tolerance n+2 units after n updates (2n+3 for expected "
         "SARSA): one floor rounding per update and the update is a sup-norm non-expansion for step sizes in [0,1]",
         "TLC evaluates the fold correctly (cross-checked against an independent Fraction fold on every 4th accepted trace)",
+        "expected SARSA with softmax_temp > 0: TLC decides the interval mean <= target <= eps*mean+(1-eps)*max, the "
+        "normalisation and order-consistency of the softmax weights and the weighted rule; TRUSTED PYTHON: the weights "
+        "themselves, exp((q-max)/tau)/Z computed by the recorder (math.exp) from the row the real table held before the "
+        "update (not taken from msdm's SoftmaxDistribution); written entries are resynchronised with the logged ones",
         "boundedness interval includes 0 (the fixed value of absorbing states); undiscounted: after n updates "
         "[min q0 + n min(r,0), max q0 + n max(r,0)]",
     ]
